@@ -30,7 +30,7 @@ const c14Unit = 120 * time.Millisecond // one model time unit
 
 func (C14) Timeout() time.Duration { return 45 * time.Second }
 
-var c14Keys = []string{"a", "b", "a/b", "a/c", "b/a", "k", "a/b/c", "z", "a%2F", "sp ace", "é", "a/", "__x"}
+var c14Keys = []string{"a", "b", "a/b", "a/c", "b/a", "k", "a/b/c", "z", "a%2F", "sp ace", "é", "a/", "__x", "a+b", "a b", "x%2By", "q?r=s&t", "a;b=c"}
 
 func (C14) Generate(rng *rand.Rand, tier string) []core.Case {
 	n := 260
